@@ -29,11 +29,11 @@ AttrPool == <<AT(a_score, "eq", <<53>>), AT(a_score, "eq", <<54>>), AT(a_score, 
               CI(fD, <<53>>), CI(fD, <<54>>), CI(fB, t_bar), CI(fC, t_bar), CI(fA, t_bar)>>
 RulePool == AttrPool \o <<LS(t_win), LS(t_lin), RC("contains_field", fB), RC("contains_field", fA), RC("is_sigma_rule", <<>>),
               RC("is_sigma_correlation_rule", <<>>), RC("tag", t_tag), RC("tag", t_tagx), RC("applied", t_ren),
-              RC("applied", t_nope), ST(t_k, t_v), ST(t_k, t_w)>>
+              RC("applied", t_nope), RC("applied", <<112,114,101>>), ST(t_k, t_v), ST(t_k, t_w)>>
 IC(t, all, s) == [t |-> t, all |-> all, s |-> s, k |-> <<>>, v |-> <<>>]
 ItemPool == <<IC("match_string", FALSE, t_foo), IC("match_string", TRUE, t_foo), IC("match_value", FALSE, t_bar),
               IC("match_value", TRUE, t_zz), IC("contains_wildcard", FALSE, <<>>), IC("contains_wildcard", TRUE, <<>>),
-              IC("is_null", FALSE, <<>>), IC("is_null", TRUE, <<>>), IC("applied", FALSE, t_ren),
+              IC("is_null", FALSE, <<>>), IC("is_null", TRUE, <<>>), IC("applied", FALSE, t_ren), IC("applied", FALSE, <<112,114,101>>),
               [IC("state", FALSE, <<>>) EXCEPT !.k = t_k, !.v = t_v], [IC("state", FALSE, <<>>) EXCEPT !.k = t_k, !.v = t_w]>>
 FC(t, names, s) == [t |-> t, names |-> names, s |-> s, k |-> <<>>, v |-> <<>>]
 FieldPool == <<FC("include", <<fH>>, <<>>), FC("exclude", <<fG>>, <<>>), FC("include", <<fB>>, <<>>), FC("include", <<fC, fD>>, <<>>), FC("exclude", <<fB>>, <<>>), FC("include", <<fA>>, <<>>),
@@ -60,7 +60,18 @@ N == IF Quick THEN 1500 ELSE 20000
 Cases == {Gate(r, Empty, Empty) : r \in RuleGroups} \cup {Gate(Empty, i, Empty) : i \in ItemGroups}
          \cup {Gate(Empty, Empty, f) : f \in FieldGroups}
          \cup {Gate(r, i, f) : r \in RandomSubset(12, RuleGroups), i \in RandomSubset(12, ItemGroups), f \in RandomSubset(10, FieldGroups)}
-ASSUME LET S == SetToSeq(Cases) IN ndJsonSerialize(IOEnv.VERIF_OUT, [i \in 1..Len(S) |-> [id |-> i, G |-> S[i]]])
+\* post-processing items are pipeline items too: a marker (embed) behind a first post-processing item of
+\* each kind, gated on that item's application (and on everything else a rule group may say)
+t_first == <<102,105,114,115,116>>
+PPKinds == {"embed", "simple_template", "template", "replace", "none"}
+PPGroups == {Grp(<<RC("applied", t_first)>>, l, EId(1), n) : l \in {"default", "or"}, n \in BOOLEAN}
+            \cup {Grp(<<RC("applied", t_first)>>, "expr", e, FALSE) : e \in Exprs1}
+            \cup {Grp(<<RC("applied", t_first), RulePool[i]>>, "expr", e, FALSE) : i \in {1, 9, 21, 22, 25}, e \in Exprs2}
+PPCases == {[G |-> Gate(r, Empty, Empty), pp |-> k] : r \in PPGroups, k \in PPKinds}
+ASSUME LET S == SetToSeq(Cases)
+           P == SetToSeq(PPCases)
+       IN  ndJsonSerialize(IOEnv.VERIF_OUT, [i \in 1..Len(S) |-> [id |-> i, G |-> S[i], pp |-> "-"]]
+                                            \o [i \in 1..Len(P) |-> [id |-> Len(S) + i] @@ P[i]])
 Init == x = 0
 Next == UNCHANGED x
 =============================================================================
